@@ -1087,7 +1087,6 @@ class ComplexModelBase(ModelBase):
         fti = cls.get_flat_type_info(cls)
 
         retval = TypeInfo()
-        tags = set()
 
         queue = deque()
         if prot is None:
@@ -1100,6 +1099,7 @@ class ComplexModelBase(ModelBase):
                     (sub_name,),
                     (_is_array(v),),
                     cls,
+                    (cls,),
                 ))
 
         else:
@@ -1115,12 +1115,11 @@ class ComplexModelBase(ModelBase):
                     (sub_name,),
                     (_is_array(v),),
                     cls,
+                    (cls,),
                 ))
 
-        tags.add(cls)
-
         while len(queue) > 0:
-            keys, v, prefix, is_array, parent = queue.popleft()
+            keys, v, prefix, is_array, parent, ancestors = queue.popleft()
             k = keys[-1]
             if issubclass(v, Array) and v.Attributes.max_occurs == 1:
                 v, = v._type_info.values()
@@ -1135,8 +1134,10 @@ class ComplexModelBase(ModelBase):
                     can_be_empty=True,
                 )
 
-                if not (v in tags):
-                    tags.add(v)
+                # a class is expanded once per branch (this is what stops
+                # self-referencing types), not once per request class: two
+                # members of the same type both get their subfields.
+                if not (v in ancestors):
                     if prot is None:
                         for k2, v2 in v.get_flat_type_info(v).items():
                             sub_name = k2
@@ -1145,7 +1146,8 @@ class ComplexModelBase(ModelBase):
                                 v2,
                                 prefix + (sub_name,),
                                 is_array + (_is_array(v),),
-                                v
+                                v,
+                                ancestors + (v,),
                             ))
 
                     else:
@@ -1161,6 +1163,7 @@ class ComplexModelBase(ModelBase):
                                 prefix + (sub_name,),
                                 is_array + (_is_array(v),),
                                 v,
+                                ancestors + (v,),
                             ))
 
             else:
